@@ -1,5 +1,6 @@
 import TdVerif.Sexp
 import TdVerif.Model.C10Memmap
+import TdVerif.Model.C10Tensor
 
 namespace TdVerif.Drive
 open TdVerif Sexp TdVerif.C10
@@ -102,6 +103,34 @@ def handleC10 (cmd : String) (args : List Sexp) : Option Sexp :=
         let fs1 := if numel sh = 0 then fs' else writeLeaf fs' dir key b
         let fuel := depth t + 1
         pure (.list [optTreeSx (load fuel fs1 []), optTreeSx (loadInto fuel fs1 [] t), optTreeSx (loadIntoSkip fuel fs1 [] t)])
+  -- (c10.populate input dstold same ce like existsok): `_populate_memmap` / `from_tensor` of one leaf.
+  --   input = (mem (bytes…)) | (file (bytes of the source file…) (positions…)); dstold = none | (bytes…); same: the destination is the source file
+  --   -> (err kind) | (ok (destination file) (tensor handed back) (from_filename of the destination))
+  | "c10.populate", [input, dstold, same, ce, like, existsok] => do
+      let b? : Sexp → Option Bool := fun x => match x with
+        | Sexp.atom "true" => some true
+        | Sexp.atom "false" => some false
+        | _ => none
+      let same ← b? same; let ce ← b? ce; let like ← b? like; let existsok ← b? existsok
+      let srcP : Path := ["src", "x.memmap"]
+      let dstP : Path := if same then srcP else ["dst", "x.memmap"]
+      let fs0 : FS := fun _ => none
+      let (fs1, value) ← match input with
+        | Sexp.list [Sexp.atom "mem", Sexp.list b] => do pure (fs0, Src.mem (← nats? b))
+        | Sexp.list [Sexp.atom "file", Sexp.list b, Sexp.list idx] => do
+            pure (Slots.write fs0 srcP (File.bytes (← nats? b)), Src.file srcP (← nats? idx))
+        | _ => none
+      let fs2 ← match dstold with
+        | Sexp.atom "none" => some fs1
+        | Sexp.list b => do
+            let bs ← nats? b
+            pure (if same then fs1 else Slots.write fs1 dstP (File.bytes bs))
+        | _ => none
+      let dir := dstP.dropLast
+      match populate fs2 dir "x" value ce like existsok with
+      | .error e => pure (tagged "err" [.atom (match e with | .existing => "existing" | .exists_ => "exists" | .partialView => "partial-view")])
+      | .ok (fs', t) =>
+        pure (tagged "ok" [ofNats (fileBytes fs' dstP), ofNats (t.value fs'), ofNats ((fromFilename dstP (value.value fs2).length).value fs')])
   | _, _ => none
 
 end TdVerif.Drive
